@@ -43,7 +43,8 @@ LEVEL_TEXT = ("Proof (Coq, no axioms) about the model of dmrs.from_mrs: nodes ar
               "the structure of the result; MRS->DMRS->MRS isomorphism, preservation of top/index and "
               "the re-conversion fixpoint are checked on every generated structure by the oracle.")
 LEVEL_NOTE = ("Partial: the round-trip isomorphism and the re-conversion fixpoint are not proved (oracle only). F8 "
-              "(representative-less scope of a 'well-formed' MRS raises IndexError) is a known finding. F32 (a label sharer of a "
+              "(representative-less scope of a 'well-formed' MRS raises IndexError) and F34 (the RSTR link of a quantifier ends at the first "
+              "representative of the restriction scope, not at the noun it binds) are known findings. F32 (a label sharer of a "
               "scopal operator whose argument lies below the operator lost its label in the round trip: MOD/EQ links were only "
               "made between scope representatives) was repaired by a fix: commit; the model follows the repaired code.")
 TECHNIQUE = "Coq proof (link justification, structure of from_dmrs) + kernel-checked correspondence of both conversions + round-trip oracle"
@@ -86,7 +87,50 @@ def gen(rng, tier):
                                 ("_probably_a_1", "_often_a_1", "_rain_v_1", False)):
         for q_first in (False, True):
             cases.append({"k": "conv", "wf": True, "m": _sharer_below(op, mod, verb, subj, q_first), "family": "sharer-below"})
+    # F8, second trigger (no representative because each member reaches below the other's scopal argument)
+    from harness.props import c07
+    cases.append({"k": "conv", "wf": True, "m": c07.F8_FAMILY, "family": "no-representative"})
+    # F34: the noun a quantifier binds is not the first representative of the restriction scope
+    for fam in F34_FAMILY:
+        cases.append({"k": "conv", "wf": True, "m": fam, "family": "rstr-target"})
     return cases
+
+
+F34_FAMILY = [
+    # "the reason for Kim leaving exists": the noun takes a co-scoped predication as its argument
+    {"top": "h0", "index": "e2", "rels": [
+        {"pred": "_the_q", "label": "h4", "args": [["ARG0", "x5"], ["RSTR", "h6"], ["BODY", "h8"]]},
+        {"pred": "_reason_n_for", "label": "h7", "args": [["ARG0", "x5"], ["ARG1", "e8"]]},
+        {"pred": "_leave_v_1", "label": "h7", "args": [["ARG0", "e8"], ["ARG1", "x9"]]},
+        {"pred": "proper_q", "label": "h10", "args": [["ARG0", "x9"], ["RSTR", "h11"], ["BODY", "h12"]]},
+        {"pred": "named", "label": "h13", "args": [["ARG0", "x9"], ["CARG", "Kim"]]},
+        {"pred": "_exist_v_1", "label": "h1", "args": [["ARG0", "e2"], ["ARG1", "x5"]]}],
+     "hcons": [["h0", "qeq", "h1"], ["h6", "qeq", "h7"], ["h11", "qeq", "h13"]], "icons": [],
+     "vars": [["e2", [["TENSE", "pres"]]], ["e8", [["TENSE", "past"]]]]},
+    # two nouns in the restriction, the bound one listed second
+    {"top": "h0", "index": "e2", "rels": [
+        {"pred": "_the_q", "label": "h4", "args": [["ARG0", "x5"], ["RSTR", "h6"], ["BODY", "h8"]]},
+        {"pred": "_owner_n_1", "label": "h7", "args": [["ARG0", "x20"]]},
+        {"pred": "_dog_n_1", "label": "h7", "args": [["ARG0", "x5"]]},
+        {"pred": "_bark_v_1", "label": "h1", "args": [["ARG0", "e2"], ["ARG1", "x5"], ["ARG2", "x20"]]}],
+     "hcons": [["h0", "qeq", "h1"], ["h6", "qeq", "h7"]], "icons": [], "vars": []},
+]
+
+
+def _rstr_target_misplaced(m):
+    """the witness class of F34: a quantifier whose restriction scope has two or more members and whose
+    bound predication (the member whose ARG0 is the quantifier's) is not the only candidate"""
+    qeq = dict((h[0], h[2]) for h in m["hcons"])
+    for q in m["rels"]:
+        a = dict((r, v) for r, v in q["args"])
+        if "RSTR" not in a:
+            continue
+        lbl = qeq.get(a["RSTR"], a["RSTR"])
+        members = [r for r in m["rels"] if r["label"] == lbl]
+        bound = [r for r in members if dict((x, y) for x, y in r["args"]).get("ARG0") == a.get("ARG0") and r is not q]
+        if len(members) >= 2 and bound:
+            return True
+    return False
 
 
 def _sharer_below(op, mod, verb, subj, q_first):
@@ -305,9 +349,14 @@ def oracle(c):
 
 
 def known_match(case, failure, known):
+    if isinstance(failure, str) and case.get("k") == "conv" and \
+            failure.startswith("MRS -> DMRS -> MRS is not isomorphic") and _rstr_target_misplaced(case["m"]):
+        for e in known:
+            if e["id"] == "F34":
+                return "F34"
     if isinstance(failure, str) and "IndexError" in failure:
         from harness.props import c07
-        if c07._mutual_cycle(case["m"]):
+        if c07._mutual_cycle(case["m"]) or c07._all_members_blocked(case["m"]):
             for e in known:
                 if e["id"] == "F8":
                     return "F8"
